@@ -94,6 +94,7 @@ type c14Env struct {
 	Bounty int
 	Exec   int
 	Keep   [][2]int
+	CfgFail []int // ids held by the finalize-failed store after the step: their update function reported an error
 }
 type c14Opts struct {
 	Init, Goal   string
@@ -253,7 +254,11 @@ func c14CoqEnv(e c14Env) string {
 	for _, v := range e.Vals {
 		vals = append(vals, fmt.Sprintf("%d%%N", v))
 	}
-	return fmt.Sprintf("mkEnv %s %s %s [%s] [%s] %d%%N %d%%N []", opt(e.Opts[0]), opt(e.Opts[1]), opt(e.Opts[2]), strings.Join(act, "; "), strings.Join(vals, "; "), e.Bounty, e.Exec)
+	cf := []string{}
+	for _, i := range e.CfgFail {
+		cf = append(cf, fmt.Sprintf("%d%%N", i))
+	}
+	return fmt.Sprintf("mkEnv %s %s %s [%s] [%s] %d%%N %d%%N [%s]", opt(e.Opts[0]), opt(e.Opts[1]), opt(e.Opts[2]), strings.Join(act, "; "), strings.Join(vals, "; "), e.Bounty, e.Exec, strings.Join(cf, "; "))
 }
 
 func jsonAmt(v string) string {
@@ -424,9 +429,9 @@ func c14UpdateValue(rnd *rand.Rand, key string, idx int) string {
 	ty, f := parts[1], parts[2]
 	switch f {
 	case "fundingGoal":
-		return fmt.Sprint([]int64{5000000000, 20000000000}[rnd.Intn(2)] + int64(idx))
+		return fmt.Sprint([]int64{5000000000, 20000000000, 4000000000}[rnd.Intn(3)] + int64(idx))
 	case "initialFunding":
-		return fmt.Sprint([]int64{1000000100, 1400000000}[rnd.Intn(2)] + int64(idx))
+		return fmt.Sprint([]int64{1000000100, 1400000000, 2000000000}[rnd.Intn(3)] + int64(idx))
 	case "votingDeadline":
 		switch ty {
 		case "configUpdate":
@@ -451,6 +456,9 @@ func (r *c14Run) deliver(op c14Op, tx []byte, feeKind bool) c14Op {
 	e := r.envRaw()
 	res := r.rep.DeliverTx(tx)
 	op.Ok = res.Code == 0
+	if op.Kind == "finalize" {
+		e.CfgFail = r.finFailed(r.rep.View())
+	}
 	op.Env = r.intern(e)
 	op.Fee = "0"
 	if op.Ok && feeKind {
@@ -458,6 +466,37 @@ func (r *c14Run) deliver(op c14Op, tx []byte, feeKind bool) c14Op {
 	}
 	r.c.Ops = append(r.c.Ops, op)
 	return op
+}
+
+// the outcome of the configuration update function is an input of the model: the ids whose record sits in the
+// finalize-failed store after the step are those whose update reported an error
+func (r *c14Run) finFailed(view map[string]string) []int {
+	out := []int{}
+	for pi, id := range r.pids {
+		if _, ok := view["propFinalizeFailed"+id]; ok {
+			out = append(out, pi)
+		}
+	}
+	return out
+}
+
+// PROPOSAL_CREATE that reuses the id of an existing proposal (must be refused whatever the proposal's state)
+func (r *c14Run) doRecreate(id, ty, proposer int, amount string, fdl, vdl int64, goal string, pass int64, cfg string, cfgValid bool) bool {
+	u := r.userKey(proposer)
+	cp := govact.CreateProposal{ProposalID: governance.ProposalID(r.pids[id]), ProposalType: c14Types[ty], Headline: "h", Description: "again", Proposer: u.Addr,
+		InitialFunding: oltAmt(amount), FundingDeadline: fdl, FundingGoal: amt(goal), VotingDeadline: vdl, PassPercentage: int(pass), ConfigUpdate: cfg}
+	tx := mkTx(action.PROPOSAL_CREATE, cp, GAS, r.memo(), u)
+	op := r.deliver(c14Op{Kind: "create", ID: id, Ty: ty, A: proposer, Amt: amount, Fdl: fdl, Vdl: vdl, Goal: goal, Pass: pass, CfgValid: cfgValid, Payer: proposer,
+		Descr: fmt.Sprintf("RE-CREATE the id of p%d: type %d by %s amount %s fdl %d vdl %d", id, ty, r.cw.names[proposer], amount, fdl, vdl)}, tx, true)
+	return op.Ok
+}
+
+// a re-creation attempt with parameters that a fresh id would be accepted with (live options of a general proposal)
+func (r *c14Run) recreateLive(id, proposer int, h int64) bool {
+	po, err := governance.NewStore("g", r.rep.A.VerifDeliver()).GetProposalOptions()
+	must(err)
+	o := po.General
+	return r.doRecreate(id, 2, proposer, o.InitialFunding.String(), h+3, h+3+o.VotingDeadline, o.FundingGoal.String(), int64(o.PassPercentage), "", true)
 }
 
 func (r *c14Run) balOf(view map[string]string, ai int) *big.Int {
@@ -635,7 +674,7 @@ func (r *c14Run) randomCreateProd(g *c14Gen, h int64) {
 	if ty == 0 {
 		keys := []string{"onsOptions.perBlockFees", "onsOptions.baseDomainPrice"}
 		for _, t := range c14TypeKeys {
-			for _, f := range []string{"fundingGoal", "fundingGoal", "votingDeadline", "fundingDeadline", "initialFunding", "passPercentage"} {
+			for _, f := range []string{"fundingGoal", "fundingGoal", "votingDeadline", "fundingDeadline", "initialFunding", "initialFunding", "passPercentage"} {
 				keys = append(keys, "propOptions."+t+"."+f)
 			}
 		}
@@ -651,6 +690,21 @@ func (r *c14Run) randomCreateProd(g *c14Gen, h int64) {
 			amount, vdl = init, fdl+vd
 		} else {
 			cfg = key + ":" + val
+			// funding goal >= 3 x initial funding is checked against the options in force NOW (creation) and again at
+			// the finalisation: two updates that are each valid now can contradict each other later (finalize-failed)
+			if parts := strings.Split(key, "."); len(parts) == 3 && (parts[2] == "fundingGoal" || parts[2] == "initialFunding") {
+				x, _ := new(big.Int).SetString(val, 10)
+				other := "fundingGoal"
+				if parts[2] == "fundingGoal" {
+					other = "initialFunding"
+				}
+				y, _ := new(big.Int).SetString(r.optValue(parts[0]+"."+parts[1]+"."+other), 10)
+				if parts[2] == "fundingGoal" {
+					valid = x.Cmp(new(big.Int).Mul(y, big.NewInt(3))) >= 0
+				} else {
+					valid = y.Cmp(new(big.Int).Mul(x, big.NewInt(3))) >= 0
+				}
+			}
 			switch rnd.Intn(10) {
 			case 0:
 				cfg, valid = "propOptions.general.passPercentage:90", false
@@ -822,6 +876,13 @@ func (r *c14Run) randomOp(g *c14Gen, h int64) {
 			return
 		}
 		r.doExpire(id, c14Pick(rnd, users), false)
+	case k >= 90 && k < 94:
+		// the id of an existing proposal (any state, terminal ones preferred) is submitted again
+		id := anyID(func(p *c14PObs) bool { return p.Stores == 16 })
+		if id < 0 || g.prev == nil || id >= len(g.prev.Props) || g.prev.Props[id] == nil {
+			return
+		}
+		r.recreateLive(id, c14Pick(rnd, users), h)
 	case k < 94:
 		id := anyID(func(p *c14PObs) bool { return p.Stores == 2 || p.Stores == 4 })
 		if id < 0 {
@@ -852,6 +913,7 @@ func (r *c14Run) endBlock() *c14Obs {
 	r.rep.EndBlock()
 	r.rep.Commit()
 	dump := r.rep.Dump()
+	e.CfgFail = r.finFailed(dump)
 	r.c.Ops = append(r.c.Ops, c14Op{Kind: "end", Env: r.intern(e), Ok: true, Fee: "0"})
 	o := r.observe(dump)
 	r.c.Obs = append(r.c.Obs, o)
@@ -918,6 +980,17 @@ func c14RandomOn(seed int64, ci int, nblocks int, prod bool) *c14Case {
 		n := rnd.Intn(5)
 		if b < 4 {
 			n = 2 + rnd.Intn(3)
+		}
+		if prod && b == 2 && ci%2 == 0 {
+			// two updates of one type that are each valid now but contradict each other (goal >= 3 x initial funding):
+			// whichever is finalised second ends in the finalize-failed store
+			t := c14TypeKeys[rnd.Intn(3)]
+			for i, cfg := range []string{"propOptions." + t + ".fundingGoal:" + fmt.Sprint(4000000000+len(r.pids)), "propOptions." + t + ".initialFunding:" + fmt.Sprint(2000000001+len(r.pids))} {
+				if key := strings.SplitN(cfg, ":", 2)[0]; r.keyFree(key, g.prev) {
+					fdl := h + 2 + int64(i) + int64(rnd.Intn(3))
+					r.doCreate(0, rnd.Intn(c14NUsers), "1000000000", fdl, fdl+c14VDelta[0], "10000000000", int64(c14Pass[0]), cfg, true)
+				}
+			}
 		}
 		if prod && g.prev != nil {
 			// shepherd the configuration proposals towards finalisation, so that options change while the other
@@ -1146,6 +1219,66 @@ func c14ScriptOptions() *c14Case {
 	})
 }
 
+// two configuration updates that are each valid when created contradict each other (a funding goal must be >= 3 x the
+// initial funding): the one finalised second fails its validation -> FINALIZE-FAILED with its funds still recorded.
+// Then the id of a proposal in EVERY state (funding, voting, passed, failed, finalized, finalize-failed) is submitted
+// again: all must be refused; the finalize-failed proposal never leaves its state
+func c14ScriptFinFail() *c14Case {
+	return c14WithProd(func() *c14Case {
+		r := c14NewRun("finfail")
+		r.prod = true
+		v0, v1 := r.acct(r.cw.w.Vals[0].Val.Addr), r.acct(r.cw.w.Vals[1].Val.Addr)
+		h := r.beginBlock()
+		mk := func(ty, who int, cfg string) {
+			r.doCreate(ty, who, "1000000000", h+6, h+6+c14VDelta[ty], "10000000000", int64(c14Pass[ty]), cfg, true)
+		}
+		mk(0, 1, "propOptions.configUpdate.fundingGoal:4000000000")    // p0 = A
+		mk(0, 1, "propOptions.configUpdate.initialFunding:2000000000") // p1 = B: valid now (1e10 >= 6e9), not after A
+		mk(2, 3, "")                                                   // p2 stays in funding
+		mk(2, 3, "")                                                   // p3 goes to voting
+		mk(2, 4, "")                                                   // p4 is cancelled
+		mk(1, 4, "")                                                   // p5 passes and is finalised
+		r.endBlock()
+		r.beginBlock()
+		for _, i := range []int{0, 1, 3, 5} {
+			r.doFund(i, 2, "9000000000")
+		}
+		r.doCancel(4, 4)
+		r.endBlock()
+		r.beginBlock()
+		r.doVote(0, v0, 1)
+		r.doVote(0, v1, 1)
+		r.endBlock()
+		r.beginBlock() // A is finalised at this EndBlock: configUpdate.fundingGoal = 4e9
+		r.doVote(1, v0, 1)
+		r.doVote(1, v1, 1)
+		r.doVote(5, v0, 1)
+		r.doVote(5, v1, 1)
+		r.endBlock()
+		hh := r.beginBlock() // B and p5 sit in the passed store until this EndBlock
+		anyOk := false
+		for _, i := range []int{2, 3, 1, 5, 4, 0} {
+			anyOk = r.recreateLive(i, 5, hh) || anyOk
+		}
+		o := r.endBlock()
+		r.c.Notes["finfail_reached"] = o.Props[1] != nil && o.Props[1].Stores == 16 && o.Props[1].Total == "10000000000"
+		hh = r.beginBlock()
+		for _, i := range []int{1, 5} {
+			anyOk = r.recreateLive(i, 5, hh) || anyOk
+		}
+		anyOk = r.doRecreate(1, 0, 1, "1000000000", hh+3, hh+3+c14VDelta[0], "4000000000", int64(c14Pass[0]), "onsOptions.perBlockFees:100000000000777", true) || anyOk
+		r.doFund(1, 2, "1")
+		r.doWithdraw(1, 2, "9000000000", 2)
+		r.doFinalize(1, 3)
+		o = r.endBlock()
+		r.c.Notes["finfail_recreate_accepted"] = anyOk
+		r.c.Notes["finfail_still_terminal"] = o.Props[1] != nil && o.Props[1].Stores == 16 && o.Props[1].Total == "10000000000"
+		r.beginBlock()
+		r.endBlock()
+		return r.finish()
+	})
+}
+
 // a full honest life: create, fund to the goal, vote yes, automatic finalisation (config update applied), and a failing one
 func c14ScriptLife() *c14Case {
 	r := c14NewRun("life")
@@ -1314,7 +1447,7 @@ func c14Main(args []string) int {
 	fs.Parse(args)
 
 	cases := []*c14Case{}
-	builders := []func() *c14Case{c14ScriptE11, c14ScriptLife, c14ScriptNegative, c14ScriptDrift, c14ScriptGoal(true), c14ScriptGoal(false), c14ScriptOptions}
+	builders := []func() *c14Case{c14ScriptE11, c14ScriptLife, c14ScriptNegative, c14ScriptDrift, c14ScriptGoal(true), c14ScriptGoal(false), c14ScriptOptions, c14ScriptFinFail}
 	for i := 0; i < *n; i++ {
 		ci := i
 		builders = append(builders, func() *c14Case { return c14Random(*seed, ci, *nb) })
